@@ -316,6 +316,13 @@ var mSrc = []fdChoice{numFd("0"), numFd("1"), numFd("2"), numFd("3"), numFd("5")
 var mModes = []struct{ op, coq string }{{"<", "MRead"}, {">", "MWrite"}, {">>", "MAppend"}, {"<>", "MReadWrite"}}
 
 func (x *runner) genForm(timeout int) {
+	for !x.genForm1(timeout) {
+	}
+}
+
+// genForm1 queues one form; false = it combined several defect-prone features
+// and was discarded.
+func (x *runner) genForm1(timeout int) bool {
 	r := x.c.Rand
 	ip, op := r.Intn(3) == 0, r.Intn(4) == 0
 	n := 1 + r.Intn(3)
@@ -384,13 +391,18 @@ func (x *runner) genForm(timeout int) {
 		parts = append(parts, d.src+m.op+right)
 		redirs = append(redirs, App("mkRedir", dstCoq, m.coq, srcCoq))
 	}
-	switch {
-	case neg:
-		class = "redir-negative-fd"
-	case huge:
-		class = "redir-huge-fd"
-	case ip && stdin:
-		class = "pipe-stdin-redirected"
+	nf := 0
+	for _, f := range []struct {
+		on   bool
+		name string
+	}{{neg, "redir-negative-fd"}, {huge, "redir-huge-fd"}, {ip && stdin, "pipe-stdin-redirected"}} {
+		if f.on {
+			nf++
+			class = f.name
+		}
+	}
+	if nf > 1 {
+		return false
 	}
 	prog := "verif:ports " + strings.Join(parts, " ")
 	if ip {
@@ -408,6 +420,7 @@ func (x *runner) genForm(timeout int) {
 		}
 		return "", false
 	}, true)
+	return true
 }
 
 // ---- D. math:pow ---------------------------------------------------------------
